@@ -30,7 +30,7 @@ fn trim_cr(l: &[u8]) -> &[u8] {
 /// five dashes (dash-escaping guarantees that no text line does).
 pub fn read_document(doc: &[u8]) -> Option<CsfDoc> {
     let mut pos = 0usize;
-    let mut next_line = |pos: &mut usize| -> Option<(usize, usize)> {
+    let next_line = |pos: &mut usize| -> Option<(usize, usize)> {
         if *pos >= doc.len() {
             return None;
         }
